@@ -56,7 +56,7 @@ def p_validate_factory(wd):
 def run(tier, out):
     rng = random.Random(core.seed())
     wd = core.workdir("C12")
-    core.build_harness("h_core")
+    core.build_harness("h_core", "bytechan")
     tot = dict(states=0, transitions=0, traces_validated_against_impl=0)
     drift = 0
     steps = 0
